@@ -205,7 +205,11 @@ def runC06 (fields : List String) (obs : String) : String × String × String :=
                   if (b.startsWith "panic:run:" || (b.startsWith "err:run:" && !(hasSub b "Unknown"))) && hasOp then b else errName e
               let model := "A=" ++ a ++ "|B=" ++ predicted ++ "|P=" ++ phex
               -- specification
-              let clause2 := cls == "operators" || cls == "indexing" || cls == "assignment" || cls == "ranges" || cls == "matrix-literals" || cls == "literals-and-calls"
+              let clause2 := cls == "operators" || cls == "indexing" || cls == "assignment" || cls == "ranges" || cls == "matrix-literals" || cls == "literals-and-calls" || cls == "statement-sequences"
+              -- the last statement is a bare operand (a name, a number, a matrix literal): no plan step produces its value
+              let lastBare : Bool :=
+                let last := ((src.splitOn "\n").filter (fun l => !l.trimAscii.toString.isEmpty)).getLast?.getD ""
+                !(hasSub last "=") && !(hasSub last " + ") && !(hasSub last " - ") && !(hasSub last " * ") && !(hasSub last " / ") && !(hasSub last "(")
               let working := simpleProgram src && cls != "matrix-literals"
               let same := b == a
               let isErr := b.startsWith "err:"
@@ -218,7 +222,7 @@ def runC06 (fields : List String) (obs : String) : String × String × String :=
               let region :=
                 if verdict == "ok" then "-"
                 else if b.startsWith "panic:run" then "C06-D3"
-                else if !isErr then (if !hasOp && b == "empty" then "C06-D4" else "-")
+                else if !isErr then (if !hasOp && b == "empty" then "C06-D4" else if hasOp && lastBare then "C06-D8" else "-")
                 else if working && cls == "operators" && operandMD src true && operandMD src false then "C06-D5"
                 else if working && hasSub src "x = " then "C06-D6"
                 else if working then "-"
